@@ -155,8 +155,26 @@ class NumKind:
 
     # ------------------------------------------------------------------ driver
     def run(self) -> "NumKind":
+        # names whose every binding is a top-level statement of the function get strong (flow-
+        # sensitive) updates: `x = Fraction(x)` at the top of a function really replaces x
+        top = set()
+        nested = set()
+        for n in astx.walk_own(self.f.node):
+            if isinstance(n, (ast.Assign, ast.AnnAssign, ast.AugAssign, ast.For, ast.comprehension, ast.With)):
+                tg = n.targets if isinstance(n, ast.Assign) else [getattr(n, "target", None)]
+                names = [x for t in tg if t is not None for x in astx.assigned_names(t)]
+                is_top = isinstance(n, (ast.Assign, ast.AnnAssign)) and n in self.f.node.body
+                for x in names:
+                    (top if is_top else nested).add(x)
+        self.strong = top - nested
+        initial = dict(self.env)
         for _ in range(4):
             before = dict(self.env)
+            for x in self.strong:
+                if x in initial:
+                    self.env[x] = initial[x]
+                else:
+                    self.env.pop(x, None)
             self.events = []
             self._seen_events = set()
             self._walk_body()
@@ -166,6 +184,9 @@ class NumKind:
 
     def _bind(self, target: ast.AST, k: K):
         if isinstance(target, ast.Name):
+            if target.id in getattr(self, "strong", ()):
+                self.env[target.id] = k
+                return
             self.env[target.id] = self.env.get(target.id, UNKNOWN).join(k)
         elif isinstance(target, (ast.Tuple, ast.List)):
             for el in target.elts:
